@@ -58,6 +58,24 @@ pub struct Run {
     pub cmds: Vec<Value>,
     #[serde(default)]
     pub capacity: usize,
+    /// delay sweep: every time the hook point `delay_point` is reached the calling thread sleeps `delay_us`
+    #[serde(default)]
+    pub delay_point: u32,
+    #[serde(default)]
+    pub delay_us: u64,
+}
+
+struct DelayHooks {
+    point: u32,
+    us: u64,
+}
+
+impl nexosim::verif::Hooks for DelayHooks {
+    fn point(&self, id: u32, _a: usize, _b: usize) {
+        if id == self.point {
+            std::thread::sleep(Duration::from_micros(self.us));
+        }
+    }
 }
 
 #[derive(Deserialize)]
@@ -70,12 +88,52 @@ pub struct Input {
 pub struct Payload {
     prog: u32,
     from: String,
+    tok: Token,
+}
+
+/// Drop accounting (C19): every token created must be dropped exactly once.
+#[derive(Debug, Default)]
+pub struct Counters {
+    created: [AtomicU64; 3],
+    dropped: [AtomicU64; 3],
+    dropping: std::sync::atomic::AtomicBool,
+    late: AtomicU64,
+}
+
+pub const K_MODEL: usize = 0;
+pub const K_PAYLOAD: usize = 1;
+pub const K_HANDLER: usize = 2;
+
+#[derive(Debug)]
+pub struct Token {
+    kind: usize,
+    c: Arc<Counters>,
+}
+
+impl Token {
+    fn new(kind: usize, c: &Arc<Counters>) -> Self {
+        c.created[kind].fetch_add(1, Ordering::SeqCst);
+        Token { kind, c: c.clone() }
+    }
+}
+
+impl Clone for Token {
+    fn clone(&self) -> Self {
+        Token::new(self.kind, &self.c)
+    }
+}
+
+impl Drop for Token {
+    fn drop(&mut self) {
+        self.c.dropped[self.kind].fetch_add(1, Ordering::SeqCst);
+    }
 }
 
 const SLEEP_OP_MS: u64 = 1200;
 const SIM_TIMEOUT_MS: u64 = 300;
 
 struct Shared {
+    counters: Arc<Counters>,
     log: Mutex<Vec<Value>>,
     prog: Vec<Vec<Op>>,
     slots: Mutex<HashMap<String, ActionKey>>,
@@ -111,6 +169,7 @@ fn sched_outcome<T>(r: &Result<T, SchedulingError>) -> &'static str {
 }
 
 pub struct ScriptModel {
+    _tok: Token,
     name: String,
     outs: Vec<Output<Payload>>,
     selfq: Requestor<Payload, u32>,
@@ -130,9 +189,15 @@ impl ScriptModel {
 
     async fn run_prog(&mut self, p: Payload, cx: &mut Context<Self>) {
         let sh = self.shared.clone();
+        // dropped when the handler completes or when its future is dropped half-way
+        let _guard = Token::new(K_HANDLER, &sh.counters);
         {
             let mut log = sh.log.lock().unwrap();
             let t = sh.tick_of(cx.time());
+            if sh.counters.dropping.load(Ordering::SeqCst) {
+                // model code running while (or after) the simulation is dropped
+                sh.counters.late.fetch_add(1, Ordering::SeqCst);
+            }
             log.push(json!({"ev": "begin", "m": self.name, "prog": p.prog, "from": p.from, "t": t}));
         }
         let ops = sh.prog[(p.prog - 1) as usize].clone();
@@ -143,7 +208,7 @@ impl ScriptModel {
                 }
                 "sched" => {
                     let mut log = sh.log.lock().unwrap();
-                    let payload = Payload { prog: op.prog, from: format!("g:{}", self.name) };
+                    let payload = Payload { prog: op.prog, from: format!("g:{}", self.name), tok: Token::new(K_PAYLOAD, &sh.counters) };
                     let out = if op.abs {
                         self.sched_with(cx, sh.time_of(op.d), op, payload)
                     } else {
@@ -160,7 +225,7 @@ impl ScriptModel {
                 }
                 "send" => {
                     sh.log.lock().unwrap().push(json!({"ev": "op", "m": self.name, "out": "ok"}));
-                    let payload = Payload { prog: op.prog, from: self.name.clone() };
+                    let payload = Payload { prog: op.prog, from: self.name.clone(), tok: Token::new(K_PAYLOAD, &sh.counters) };
                     self.outs[op.port - 1].send(payload).await;
                 }
                 "panic" => {
@@ -169,7 +234,7 @@ impl ScriptModel {
                 }
                 "qself" => {
                     sh.log.lock().unwrap().push(json!({"ev": "op", "m": self.name, "out": "ok"}));
-                    let payload = Payload { prog: op.prog, from: self.name.clone() };
+                    let payload = Payload { prog: op.prog, from: self.name.clone(), tok: Token::new(K_PAYLOAD, &sh.counters) };
                     let _ = self.selfq.send(payload).await.count();
                 }
                 "sleep" => {
@@ -306,6 +371,13 @@ fn exec_result(sh: &Shared, r: Result<(), ExecutionError>) -> Value {
     }
 }
 
+thread_local! { static TIMED_OUT: std::cell::Cell<bool> = const { std::cell::Cell::new(false) }; }
+
+/// Number of threads of this process (Linux).
+fn thread_count() -> u64 {
+    std::fs::read_dir("/proc/self/task").map(|d| d.count() as u64).unwrap_or(0)
+}
+
 pub static HEARTBEAT: AtomicU64 = AtomicU64::new(0);
 pub static HEARTBEAT_ALLOW_MS: AtomicU64 = AtomicU64::new(0);
 
@@ -326,6 +398,7 @@ struct World {
 fn build(bench: &Bench, run: &Run, out: &mut dyn Write) -> World {
     let t0 = MonotonicTime::new(run.t0_secs, 0).unwrap();
     let sh = Arc::new(Shared {
+        counters: Arc::new(Counters::default()),
         log: Mutex::new(Vec::new()),
         prog: bench.prog.clone(),
         slots: Mutex::new(HashMap::new()),
@@ -360,7 +433,7 @@ fn build(bench: &Bench, run: &Run, out: &mut dyn Write) -> World {
         }
         let mut selfq = Requestor::new();
         selfq.connect(ScriptModel::reply, addrs.get(m).unwrap());
-        models.push(ScriptModel { name: m.clone(), outs, selfq, shared: sh.clone() });
+        models.push(ScriptModel { _tok: Token::new(K_MODEL, &sh.counters), name: m.clone(), outs, selfq, shared: sh.clone() });
     }
     for (m, model) in bench.models.iter().zip(models.into_iter()) {
         let mb = mailboxes.remove(0);
@@ -424,7 +497,7 @@ fn driver_sched(w: &mut World, c: &Value) -> &'static str {
     let per = u(c, "per");
     let slot = s(c, "slot");
     let prog = u(c, "prog") as u32;
-    let payload = Payload { prog, from: "g:drv".to_string() };
+    let payload = Payload { prog, from: "g:drv".to_string(), tok: Token::new(K_PAYLOAD, &sh.counters) };
     // performed under the log lock so that the position of the command in the trace is exact
     let _g = sh.log.lock().unwrap();
     macro_rules! with_deadline {
@@ -520,6 +593,12 @@ pub fn execute(bench: &Bench, run: &Run, out: &mut dyn Write, start: &Instant) {
     )
     .unwrap();
     beat(start, 10_000);
+    if run.delay_point != 0 {
+        nexosim::verif::install(Some(Arc::new(DelayHooks { point: run.delay_point, us: run.delay_us })));
+    } else {
+        nexosim::verif::install(None);
+    }
+    let threads_before = thread_count();
     let mut w = build(bench, run, out);
     let sh = w.sh.clone();
     for c in run.cmds.iter() {
@@ -570,7 +649,7 @@ pub fn execute(bench: &Bench, run: &Run, out: &mut dyn Write, start: &Instant) {
                     _ => {
                         let kind = s(c, "kind");
                         let prog = u(c, "prog") as u32;
-                        let payload = Payload { prog, from: "drv".to_string() };
+                        let payload = Payload { prog, from: "drv".to_string(), tok: Token::new(K_PAYLOAD, &sh.counters) };
                         match kind.as_str() {
                             "event" => {
                                 let addr = w.addrs.get(&s(c, "target")).unwrap().clone();
@@ -603,20 +682,52 @@ pub fn execute(bench: &Bench, run: &Run, out: &mut dyn Write, start: &Instant) {
                     Err(p) => res("PANICKED", &payload_string(&p), 0, json!([])),
                 };
                 if resv["r"] == "timeout" {
+                    TIMED_OUT.with(|t| t.set(true));
                     // let the abandoned handler finish before going on
                     std::thread::sleep(Duration::from_millis(SLEEP_OP_MS + 300));
                 }
                 let t = sh.tick_of(simu.time());
                 emit(&sh, out, json!({"ev": "ret", "res": resv, "t": t}));
+                let r = resv["r"].as_str().unwrap_or("");
+                if run.threads > 1 && (r == "panic" || r == "norecipient") {
+                    // the other workers stop as soon as they see the abort flag: let the handlers they
+                    // were running finish so that their events are not mistaken for later activity
+                    std::thread::sleep(Duration::from_millis(30));
+                    flush(&sh, out);
+                }
             }
             other => panic!("harness: unknown command {}", other),
         }
     }
     beat(start, 20_000);
-    // Dropping the simulation must return (C19 looks at this in more depth).
+    // C19: dropping the simulation (with its scheduler handle, addresses and event sources) must
+    // return, release every model, message and handler future exactly once and join the workers.
+    let timed_out = TIMED_OUT.with(|t| t.replace(false));
+    let counters = sh.counters.clone();
+    counters.dropping.store(true, Ordering::SeqCst);
     let simu = w.simu.take();
     drop(simu);
     drop(w);
+    sh.slots.lock().unwrap().clear();
+    // A joined thread may still be listed for a moment while the kernel reaps it: let the count settle.
+    let mut threads_after = thread_count();
+    let mut tries = 0;
+    while threads_after > threads_before && tries < 100 {
+        std::thread::sleep(Duration::from_millis(10));
+        threads_after = thread_count();
+        tries += 1;
+    }
+    let c = |k: usize| counters.created[k].load(Ordering::SeqCst);
+    let d = |k: usize| counters.dropped[k].load(Ordering::SeqCst);
+    flush(&sh, out);
+    writeln!(
+        out,
+        "{}",
+        json!({"ev": "drop", "models": [c(K_MODEL), d(K_MODEL)], "payloads": [c(K_PAYLOAD), d(K_PAYLOAD)],
+               "handlers": [c(K_HANDLER), d(K_HANDLER)], "threads": [threads_before, threads_after],
+               "late": counters.late.load(Ordering::SeqCst), "abandoned": timed_out})
+    )
+    .unwrap();
     writeln!(out, "{}", json!({"ev": "end", "run": run.id})).unwrap();
     out.flush().unwrap();
 }
